@@ -765,36 +765,30 @@ def _schema(op):
 
 
 class LitState:
-    """The harness's own reading of tape_builder._cast_inputs + builder._get_or_create_constant naming
-    (C12 owns the question whether this promotion is right; here it only has to predict names)."""
+    """The harness's reading of how a literal operand is named when it is promoted
+    (builder._get_or_create_constant + tape_builder._constant_name).  WHICH literals share one cache entry
+    is C12's question (literal promotion / constant cache): it is observed on the real builder (the
+    initializer the operand resolved to) and given to the model as the cache key."""
 
-    def __init__(self):
-        self.canon = {}      # python key -> canonical key string (python dict equality, as the builder's cache)
-        self.order = []
-
-    def describe(self, value, dtype):
+    def describe(self, value, dtype, observed_name):
         import onnx_ir as ir
         if isinstance(value, (list, tuple)):
             el = type(value[0])
             if dtype is None:
                 dtype = {int: ir.DataType.INT64, float: ir.DataType.FLOAT}.get(el)
-            key = (tuple(value), dtype)
             name = ("idx", "const_1d_")
         else:
             if dtype is None:
                 dtype = {int: ir.DataType.INT64, float: ir.DataType.FLOAT}.get(type(value))
-            key = (value, dtype)
             if isinstance(value, str):
                 name = ("idx", "const_str_")
             else:
                 suffix = dtype.short_name() if dtype is not None else ""
                 name = ("fixed", f"const_{value}_{suffix}" if suffix else f"const_{value}")
-        if key not in self.canon:
-            self.canon[key] = f"k{len(self.canon)}"
         npd = dtype.numpy() if dtype is not None else None
         arr = np.array(value, dtype=npd) if npd is not None else np.array(value)
         valid = f"{arr.dtype}:{arr.shape}:{arr.tobytes().hex()}"
-        return dict(key=self.canon[key], name=name, val=valid, array=arr)
+        return dict(key=observed_name, name=name, val=valid, array=arr)
 
 
 def literal_dtypes(op, args, typed, dtype_of):
@@ -915,20 +909,9 @@ def execute(trace, mode="call", shared_probe=None):
                 rec["subs"] = rec_subs
                 # literal descriptors by the independent rule, from what the builder knows now
                 ld = literal_dtypes(s["op"], s["args"], typed, dts)
-                cargs, rargs = [], []
+                cargs = []
                 for i, a in enumerate(s["args"]):
-                    if a[0] == "v":
-                        cargs.append(vals[a[1]])
-                        rargs.append(a)
-                    elif a[0] == "none":
-                        cargs.append(None)
-                        rargs.append(a)
-                    else:
-                        dt, like = ld[i]
-                        d = lits.describe(a[1], dt)
-                        cargs.append(a[1])
-                        rargs.append(("lit", a[1], d, like))
-                rec["args"] = rargs
+                    cargs.append(vals[a[1]] if a[0] == "v" else (None if a[0] == "none" else a[1]))
                 kwargs = dict(s["attrs"])
                 for k, sg in subs_built:
                     kwargs[k] = sg
@@ -936,6 +919,18 @@ def execute(trace, mode="call", shared_probe=None):
                 res = getattr(op, s["op"])(*cargs, **kwargs)
                 res = list(res) if isinstance(res, (list, tuple)) else [res]
                 assert len(res) == len(s["ids"]), (s["op"], len(res), s["ids"])
+                node = res[0].producer()
+                rargs = []
+                for i, a in enumerate(s["args"]):
+                    if a[0] != "lit":
+                        rargs.append(a)
+                        continue
+                    dt, like = ld[i]
+                    got = node.inputs[i]
+                    if got is not None and got.producer() is not None and got.producer().op_type == "CastLike":
+                        got = got.producer().inputs[0]
+                    rargs.append(("lit", a[1], lits.describe(a[1], dt, got.name if got is not None else "?none"), like))
+                rec["args"] = rargs
                 for i, v in zip(s["ids"], res):
                     note(i, v)
             else:
@@ -1077,13 +1072,18 @@ def make_feeds(trace, k):
     return feeds
 
 
-def ort_run(model_proto, feeds):
+def ort_session(model_proto):
     import onnxruntime as ort
     so = ort.SessionOptions()
     so.graph_optimization_level = ort.GraphOptimizationLevel.ORT_DISABLE_ALL
     so.log_severity_level = 4
-    sess = ort.InferenceSession(model_proto.SerializeToString(), so, providers=["CPUExecutionProvider"])
-    return sess.run(None, feeds)
+    so.intra_op_num_threads = 1
+    so.inter_op_num_threads = 1
+    return ort.InferenceSession(model_proto.SerializeToString(), so, providers=["CPUExecutionProvider"])
+
+
+def ort_run(model_proto, feeds):
+    return ort_session(model_proto).run(None, feeds)
 
 
 def close(a, b):
